@@ -16,10 +16,22 @@ Definition lt256 (l : bytes) : Prop := Forall (fun b => (b < 256)%N) l.
 Theorem C06_ahex : forall p e tail, lt256 p -> ahex_enc p e -> ahex_decode (e ++ tail) = Ok p.
 Proof. exact ahex_roundtrip. Qed.
 
-(* ASCII85Decode: any payload, any legal encoding (white space anywhere, z or five characters for a zero
-   group, final partial group), white space after the EOD marker; debug and release builds *)
+(* ASCII85Decode: any payload, any legal encoding (white space anywhere — also before the EOD marker and
+   between its two characters —, z or five characters for a zero group, final partial group), white space
+   after the EOD marker; debug and release builds *)
 Theorem C06_a85 : forall dbg p e eol, lt256 p -> a85_enc p e -> ws_only eol -> a85_decode dbg (e ++ eol) = Ok p.
 Proof. exact a85_roundtrip. Qed.
+
+(* an instance with the EOD marker split by a line break (`z~` LF `>`), as a fixed-width line wrapper may
+   produce: the relation allows white space between the `~` and the `>` *)
+Example C06_a85_split_marker : forall dbg, a85_decode dbg [122; 126; 10; 62]%N = Ok [0; 0; 0; 0]%N.
+Proof.
+  intros dbg. rewrite <- (app_nil_r [122; 126; 10; 62]%N). apply C06_a85.
+  - repeat constructor.
+  - exists [122%N]. split; [apply ad_z; constructor|].
+    apply il_keep, il_keep, il_ws; [cbn; auto 10 | apply il_keep, il_nil].
+  - constructor.
+Qed.
 
 (* FlateDecode, relative to the inflate oracle: for any [inflate] that returns the payload and the unused
    tail on every valid zlib encoding followed by anything, the transform returns the payload (and with
